@@ -34,7 +34,9 @@ TRUSTED = ['numpy-quaternion as_rotation_vector / from_rotation_vector: Section 
            'json / numpy savez+load / pickle+gzip / kapture CSV and binary feature files / file copy of the images: exercised, '
            'not modelled (the model works on their content)',
            'IEEE rounding of f / max(w,h) * max(w,h) and of the %.10f points file: outside the model, compared within 1e-9 relative']
-ASSUMPTIONS = ['in range = cameras SIMPLE_PINHOLE / SIMPLE_RADIAL / RADIAL with integral positive width/height and principal point '
+ASSUMPTIONS = ['known finding, reported as KNOWN-FINDING and not failing the check: points imported in string order of their ids '
+               '(more than 10 points); any other difference of the point sequence is a violation',
+               'in range = cameras SIMPLE_PINHOLE / SIMPLE_RADIAL / RADIAL with integral positive width/height and principal point '
                'at (w/2, h/2); unique image names; every image has its own trajectory entry (timestamp, camera id) with a complete, '
                'non-zero pose (the exporter does not flatten rigs); points3d rows have colours (Nx6); a single keypoints type and a '
                'single descriptors type; keypoint indices in match files are integral',
@@ -383,6 +385,13 @@ def _close(a, b, tol=1e-9):
     return abs(a - b) <= tol * max(1.0, abs(a))
 
 
+KNOWN_SIG = 'points imported in string order of their ids (more than 10 points)'
+
+
+def _same_rows(ra, rb):
+    return len(ra) == len(rb) and all(len(x) == len(y) and all(_close(u, v) for u, v in zip(x, y)) for x, y in zip(ra, rb))
+
+
 def _persp(cam):
     p = cam['params']
     t = cam['type']
@@ -426,14 +435,6 @@ def oracle(case, obs):
             return 'perspective camera parameters differ'
         if cb[cid]['type'] not in CAMTYPES or not (_close(c['params'][3], cb[cid]['params'][3]) and _close(c['params'][4], cb[cid]['params'][4])):
             return 'camera model or principal point differs'
-    if (a['points'] is None) != (b['points'] is None):
-        return 'point cloud appeared or vanished'
-    if a['points'] is not None:
-        if len(a['points']) != len(b['points']):
-            return 'number of 3-D points differs'
-        for i, (ra, rb) in enumerate(zip(a['points'], b['points'])):
-            if len(ra) != len(rb) or not all(_close(x, y) for x, y in zip(ra, rb)):
-                return 'sequence of 3-D points differs' + (' (more than 10 points)' if len(a['points']) > 10 else '')
     if a['kp'] != b['kp']:
         return 'keypoints differ' if b['kp'] else 'keypoints lost'
     if a['desc'] != b['desc']:
@@ -442,6 +443,18 @@ def oracle(case, obs):
     mb = {(m['a'], m['b']): [r[:2] for r in m['rows']] for m in b['matches']}
     if ma != mb:
         return 'match index pairs differ'
+    # points last, and the known finding last of all, so that it never masks another failure
+    if (a['points'] is None) != (b['points'] is None):
+        return 'point cloud appeared or vanished'
+    if a['points'] is not None:
+        if len(a['points']) != len(b['points']):
+            return 'number of 3-D points differs'
+        if not _same_rows(a['points'], b['points']):
+            n = len(a['points'])
+            by_string_ids = [a['points'][i] for i in sorted(range(n), key=str)]
+            if n > 10 and _same_rows(by_string_ids, b['points']):
+                return KNOWN_SIG
+            return 'sequence of 3-D points differs'
     return None
 
 
@@ -554,6 +567,10 @@ def describe(case, obs):
 
 
 def shrink(case):
+    if case['points'] and len(case['points']) > 10:     # first leave the territory of the known finding
+        c = json.loads(json.dumps(case))
+        c['points'] = c['points'][:10]
+        yield c
     names = [im['name'] for im in case['images']]
     if len(case['images']) > 1:
         for n in names:
@@ -577,7 +594,7 @@ def shrink(case):
             yield c
     if case['points']:
         n = len(case['points'])
-        for m in sorted({1, n // 2, n - 1, 11, 10} - {n}):     # never down to the empty cloud: a different code path
+        for m in sorted({1, n // 2, n - 1, 10} - {n}):     # never down to the empty cloud: a different code path
             if 1 <= m < n:
                 c = json.loads(json.dumps(case))
                 c['points'] = c['points'][:m]
@@ -605,12 +622,17 @@ TECHNIQUE = ('Coq proof (import . export characterised part by part for every in
 LEVEL_TEXT = ('Theorems in coq/Props/C15.v hold for every in-range dataset of any size and every pair of rotation-vector conversions: '
               'the round trip succeeds; same image names bound to the same camera ids; same translation and, under the library '
               'contract on the dataset\'s quaternions, the same rotation; same camera ids, each RADIAL with the same (w, h, f, k1, k2) '
-              '(focal exactly over Q) and centred principal point; the same sequence of coloured 3-D points for any length (numeric id '
-              'order; the legacy string order is refuted for every length above ten); the same keypoints / descriptors arrays by '
+              '(focal exactly over Q) and centred principal point; the point cloud: AS THE CODE IS, the original sequence permuted by '
+              'the string order of the decimal ids (same multiset for any length, identical up to ten points, an 11-point witness refutes '
+              'the sequence clause), and for the repaired model (key=int) the same sequence for any length; the same keypoints / descriptors arrays by '
               'image name; the same ordered image pairs with the same index pairs. The model is tied to the code by running the real '
               'export_opensfm and import_opensfm on generated datasets and comparing, inside Coq, the written project and the '
               're-imported dataset with the model (integers, strings, arrays, translations exactly; focal, points to 1e-9; rotations '
               'as matrices to 1e-9).')
-LEVEL_NOTE = ('partial: JSON / npz / pickle / CSV layers, file copies and the quaternion library are trusted and only exercised; float '
+LEVEL_NOTE = ('KNOWN FINDING (not repaired in the tree, see docs/C15.md): import_opensfm orders the point ids as strings, so a cloud of more '
+              'than 10 points comes back permuted (0,1,10,11,...,2,...). The model used by the correspondence is the code as it is (string '
+              'order); C15_points_as_is_* state what holds as is (same multiset for any length, same sequence up to 10 points), '
+              'C15_points_sequence_refuted is the 11-point witness, C15_repaired_* state the full clause for the numeric-order repair '
+              '(fixes/not-applied/). partial: JSON / npz / pickle / CSV layers, file copies and the quaternion library are trusted and only exercised; float '
               'rounding is outside the model. Datasets with rig-mounted cameras, partial poses, XYZ-only clouds or several feature '
               'types are outside in_range (the first three make the converters raise; observed and modelled as outcomes).')
